@@ -25,7 +25,7 @@
 From Coq Require Import List ZArith QArith Bool Arith Lia Reals Lra.
 From Flocq Require Import Core BinarySingleNaN.
 From LMBase Require Import Res ListX IEEE.
-From LMDisc Require Import DiscModel DiscImplCheck DiscProofs DiscKernels DiscU8Kernel GenDiscU8 DiscU8Proofs DiscHistory DiscHistoryProofs DiscIEEE DiscImplProofs DiscF32Mono DiscF32Main DiscF32Sum DiscF32Cond DiscF32Zero DiscF32End DiscF32Sign.
+From LMDisc Require Import DiscModel DiscSkel GenDiscSkel DiscSkelProofs DiscImplCheck DiscProofs DiscUnscale DiscKernels DiscU8Kernel GenDiscU8 DiscU8Proofs DiscHistory DiscHistoryProofs DiscIEEE DiscImplProofs DiscF32Mono DiscF32Main DiscF32Sum DiscF32Cond DiscF32Zero DiscF32Degenerate DiscF32End DiscF32Sign.
 Import ListNotations.
 
 (* (1) exact arithmetic: byte score of a window >= byte image of its real score *)
@@ -308,6 +308,75 @@ Theorem C08_history_needs_resize :
   hrun avx2_noresize gen_neon_u8 32 ex_h_ops buf_empty
     = Ok {| sc_rows := [repeat 2%Z 20 ++ repeat 0%Z 12; repeat 255%Z 32]; sc_max := 7%nat |}.
 Proof. exact history_example. Qed.
+
+(* (2k) the STATEMENT SKELETON of pwm/mod.rs (GenDiscSkel.v, regenerated by translate/disc_skel.py on every check from
+   ScoringMatrix::to_discrete and DiscreteMatrix::{scale, unscale, score_position}: offsets = min_by over
+   row[..K - 1], factor expression, cell expression with `.ceil() as u8` over all rows and columns, scale expression
+   with `.floor() as u8`, unscale expression, saturating accumulation from 0 at `pos + j`).  The functions obtained
+   from the generated skeleton ARE the functions of DiscModel.v that every theorem of this file is about, for every
+   instance of the numeric operations (binary32 and exact): *)
+Theorem C08_skeleton_as_modelled :
+  (forall (T : Type) (N : NumOps T) (K : nat) (m : list (list T)),
+      skp_to_discrete N gen_skel K m = to_discrete N K m) /\
+  (forall (T : Type) (N : NumOps T) (factor offset s : T),
+      skp_scale_with N gen_skel factor offset s = scale_with N factor offset s) /\
+  (forall (T : Type) (N : NumOps T) (factor offset : T) (b : Z),
+      skp_unscale_with N gen_skel factor offset b = unscale_with N factor offset b) /\
+  (forall (dm : list (list Z)) (s : sseq) (pos : nat), skp_disc_score gen_skel dm s pos = disc_score dm s pos).
+Proof.
+  split; [intros; apply skel_to_discrete|]. split; [intros; apply skel_scale|].
+  split; [intros; apply skel_unscale|exact skel_disc_score].
+Qed.
+
+(* what the skeleton decides: the same code with the cells rounded DOWN under-estimates the consensus word of a
+   two-row matrix (byte score 254 < 255 = image of the real score), the generated skeleton does not *)
+Theorem C08_skeleton_floor_cells_refuted :
+  skel_outcome gen_skel = Ok (255, 255)%Z /\ skel_outcome floor_cells_skel = Ok (254, 255)%Z.
+Proof. exact skel_outcomes. Qed.
+
+(* (2u) unscale, exact arithmetic, positive factor: unscale(scale(t)) lies in [offset, offset + 255 factor], is <= t
+   as soon as t >= offset and > t - factor as soon as t < offset + 256 factor (as coded: floor, then clamp) *)
+Theorem C08_unscale_scale :
+  forall f off t : Q, (0 < f)%Q ->
+    let u := unscaleq f off (scale_with xq_ops (XFin f) (XFin off) (XFin t)) in
+    unscale_with xq_ops (XFin f) (XFin off) (scale_with xq_ops (XFin f) (XFin off) (XFin t)) = XFin u /\
+    (off <= u)%Q /\ (u <= off + 255 * f)%Q /\
+    ((off <= t)%Q -> (u <= t)%Q) /\
+    ((t < off + 256 * f)%Q -> (t < u + f)%Q).
+Proof. intros f off t Hf u. split; [reflexivity|]. exact (unscale_scale f off t Hf). Qed.
+
+(* consequently, for every window whose real score r is below offset + 256 factor (every window without a wildcard
+   cell above its row maximum: r <= max_score = offset + 255 factor): r < unscale(byte score) + factor.  (The
+   `unscale(u8) >= expected` of tests/dna.rs is NOT a consequence of the code: only this weaker bound is.) *)
+Theorem C08_unscale_bounds_real :
+  forall (K : nat) (m : list (list xq)) (d : @dmat xq) (w : list nat) (r : Q) (b : Z) (f off : Q),
+    Forall (fun row => Forall xq_finite (nonwild K row)) m ->
+    to_discrete xq_ops K m = Ok d ->
+    real_wscore xq_ops m w = Ok (XFin r) ->
+    disc_wscore (d_data d) w = Ok b ->
+    d_factor d = XFin f -> d_offset d = XFin off -> (0 < f)%Q ->
+    (r < off + 256 * f)%Q ->
+    unscale xq_ops d b = XFin (unscaleq f off b) /\ (r < unscaleq f off b + f)%Q.
+Proof. exact unscale_bounds_real. Qed.
+
+(* (2d) degenerate factors.  Exact arithmetic: the factor is 0 exactly when every row is constant over the
+   non-wildcard symbols, positive otherwise *)
+Theorem C08_factor_positive_iff_nonconstant :
+  forall (K : nat) (m : list (list xq)) (d : @dmat xq),
+    Forall (fun row => Forall xq_finite (nonwild K row)) m ->
+    to_discrete xq_ops K m = Ok d ->
+    exists f, d_factor d = XFin f /\ (0 <= f)%Q /\
+              ((f == 0)%Q <-> Forall (fun row => row_const (nonwild K row)) m) /\
+              ((0 < f)%Q <-> ~ Forall (fun row => row_const (nonwild K row)) m).
+Proof. exact factor_zero_iff_constant. Qed.
+
+(* binary32, factor +0.0 (constant rows, or a range so small that range/255 underflows to zero), as coded: a cell is
+   255 when its entry is strictly above the (finite) row offset and 0 otherwise (0/0 = NaN, x/0 = -inf, NaN entry);
+   with C08_f32_main_well_conditioned_partial (which admits the factor +0.0) the main clause still holds there *)
+Theorem C08_zero_factor_cells_f32 :
+  forall x o : F32.t, F32.is_finite o = true ->
+    disc_cell f32_ops (B754_zero false) o x = if F32.lt o x then 255%Z else 0%Z.
+Proof. exact zero_factor_cell. Qed.
 
 (* (3) binary32: the statement is false for ill-conditioned matrices *)
 Theorem C08_ieee_refuted :
